@@ -504,3 +504,45 @@ ostep!(n_area_e_c0, Cfg { kind: 0, h: 1, d: 1, cur: 0, area: 4, depth: [1, 0, 0,
 ostep!(o_heart_fwd, Cfg { kind: 0, h: 1, d: 2, area: 1, npts: 1, pts_fixed_loc: Some(NCODE + 2), depth: [0, 0, 0, 1, 0, 0], ..CFG0 });
 // @h prop=C02 unwind=10 rec=2 cutfmt=1 uw=same_output.0:25;exit_model.0:25;exit.0:25;push.0:17;write.0:17 timeout=1200 mem=12 what=핫_with_zero_dots_in_pre-execution
 ostep!(o_mul_to0, Cfg { kind: 2, h: 2, d: 0, depth: [1, 0, 0, 2, 0, 0], ..CFG0 });
+
+// ---- pairwise grid (same points as C01's g_*): thorough tier, stretch ----
+// @h prop=C02 unwind=10 rec=2 cutfmt=1 uw=same_output.0:25;exit_model.0:25;exit.0:25;push.0:17;write.0:17 timeout=1800 mem=12 tier=thorough kind=stretch what=pairwise_grid_g_k5_h3_d3_a1_c3
+ostep!(og_k5_h3_d3_a1_c3, Cfg { kind: 5, h: 3, d: 3, cur: 3, area: 1, npts: 1, dom: Dom::I8, depth: [0, 0, 0, 3, 0, 0], ..CFG0 });
+// @h prop=C02 unwind=10 rec=2 cutfmt=1 uw=same_output.0:25;exit_model.0:25;exit.0:25;push.0:17;write.0:17 timeout=1800 mem=12 tier=thorough kind=stretch what=pairwise_grid_g_k2_h1_d4_a0_c4
+ostep!(og_k2_h1_d4_a0_c4, Cfg { kind: 2, h: 1, d: 4, cur: 4, area: 0, npts: 0, dom: Dom::Frac, depth: [0, 0, 0, 0, 1, 0], ..CFG0 });
+// @h prop=C02 unwind=10 rec=3 cutfmt=1 uw=same_output.0:25;exit_model.0:25;exit.0:25;push.0:17;write.0:17 timeout=1800 mem=12 tier=thorough kind=stretch what=pairwise_grid_g_k4_h2_d0_a4_c3
+ostep!(og_k4_h2_d0_a4_c3, Cfg { kind: 4, h: 2, d: 0, cur: 3, area: 4, npts: 0, dom: Dom::Frac, depth: [0, 0, 0, 3, 0, 0], ..CFG0 });
+// @h prop=C02 unwind=10 rec=3 cutfmt=1 uw=same_output.0:25;exit_model.0:25;exit.0:25;push.0:17;write.0:17 timeout=1800 mem=12 tier=thorough kind=stretch what=pairwise_grid_g_k3_h2_d3_a3_c4
+ostep!(og_k3_h2_d3_a3_c4, Cfg { kind: 3, h: 2, d: 3, cur: 4, area: 3, npts: 0, dom: Dom::I8, depth: [0, 0, 0, 1, 3, 0], ..CFG0 });
+// @h prop=C02 unwind=10 rec=3 cutfmt=1 uw=same_output.0:25;exit_model.0:25;exit.0:25;push.0:17;write.0:17 timeout=1800 mem=12 tier=thorough kind=stretch what=pairwise_grid_g_k1_h1_d0_a3_c3
+ostep!(og_k1_h1_d0_a3_c3, Cfg { kind: 1, h: 1, d: 0, cur: 3, area: 3, npts: 0, dom: Dom::I8, depth: [0, 0, 0, 2, 0, 0], ..CFG0 });
+// @h prop=C02 unwind=10 rec=3 cutfmt=1 uw=same_output.0:25;exit_model.0:25;exit.0:25;push.0:17;write.0:17 timeout=1800 mem=12 tier=thorough kind=stretch what=pairwise_grid_g_k1_h3_d4_a4_c4
+ostep!(og_k1_h3_d4_a4_c4, Cfg { kind: 1, h: 3, d: 4, cur: 4, area: 4, npts: 0, dom: Dom::I8, depth: [0, 0, 0, 0, 3, 0], ..CFG0 });
+// @h prop=C02 unwind=10 rec=2 cutfmt=1 uw=same_output.0:25;exit_model.0:25;exit.0:25;push.0:17;write.0:17 timeout=1800 mem=12 tier=thorough kind=stretch what=pairwise_grid_g_k3_h3_d0_a0_c3
+ostep!(og_k3_h3_d0_a0_c3, Cfg { kind: 3, h: 3, d: 0, cur: 3, area: 0, npts: 0, dom: Dom::I8, depth: [0, 0, 0, 3, 0, 0], ..CFG0 });
+// @h prop=C02 unwind=10 rec=2 cutfmt=1 uw=same_output.0:25;exit_model.0:25;exit.0:25;push.0:17;write.0:17 timeout=1800 mem=12 tier=thorough kind=stretch what=pairwise_grid_g_k4_h1_d4_a1_c4
+ostep!(og_k4_h1_d4_a1_c4, Cfg { kind: 4, h: 1, d: 4, cur: 4, area: 1, npts: 1, dom: Dom::Frac, depth: [0, 0, 0, 0, 1, 0], ..CFG0 });
+// @h prop=C02 unwind=10 rec=3 cutfmt=1 uw=same_output.0:25;exit_model.0:25;exit.0:25;push.0:17;write.0:17 timeout=1800 mem=12 tier=thorough kind=stretch what=pairwise_grid_g_k2_h1_d3_a4_c3
+ostep!(og_k2_h1_d3_a4_c3, Cfg { kind: 2, h: 1, d: 3, cur: 3, area: 4, npts: 0, dom: Dom::Frac, depth: [0, 0, 0, 2, 0, 0], ..CFG0 });
+// @h prop=C02 unwind=10 rec=2 cutfmt=1 uw=same_output.0:25;exit_model.0:25;exit.0:25;push.0:17;write.0:17 timeout=1800 mem=12 tier=thorough kind=stretch what=pairwise_grid_g_k5_h2_d4_a0_c4
+ostep!(og_k5_h2_d4_a0_c4, Cfg { kind: 5, h: 2, d: 4, cur: 4, area: 0, npts: 0, dom: Dom::I8, depth: [0, 0, 0, 0, 2, 0], ..CFG0 });
+// @h prop=C02 unwind=10 rec=2 cutfmt=1 uw=same_output.0:25;exit_model.0:25;exit.0:25;push.0:17;write.0:17 timeout=1800 mem=12 tier=thorough kind=stretch what=pairwise_grid_g_k2_h2_d0_a1_c4
+ostep!(og_k2_h2_d0_a1_c4, Cfg { kind: 2, h: 2, d: 0, cur: 4, area: 1, npts: 1, dom: Dom::Frac, depth: [0, 0, 0, 0, 2, 0], ..CFG0 });
+// @h prop=C02 unwind=10 rec=3 cutfmt=1 uw=same_output.0:25;exit_model.0:25;exit.0:25;push.0:17;write.0:17 timeout=1800 mem=12 tier=thorough kind=stretch what=pairwise_grid_g_k4_h3_d4_a3_c3
+ostep!(og_k4_h3_d4_a3_c3, Cfg { kind: 4, h: 3, d: 4, cur: 3, area: 3, npts: 0, dom: Dom::Frac, depth: [0, 0, 0, 3, 1, 0], ..CFG0 });
+// @h prop=C02 unwind=10 rec=2 cutfmt=1 uw=same_output.0:25;exit_model.0:25;exit.0:25;push.0:17;write.0:17 timeout=1800 mem=12 tier=thorough kind=stretch what=pairwise_grid_g_k1_h2_d3_a0_c4
+ostep!(og_k1_h2_d3_a0_c4, Cfg { kind: 1, h: 2, d: 3, cur: 4, area: 0, npts: 0, dom: Dom::I8, depth: [0, 0, 0, 1, 2, 0], ..CFG0 });
+// @h prop=C02 unwind=10 rec=3 cutfmt=1 uw=same_output.0:25;exit_model.0:25;exit.0:25;push.0:17;write.0:17 timeout=1800 mem=12 tier=thorough kind=stretch what=pairwise_grid_g_k3_h1_d4_a4_c3
+ostep!(og_k3_h1_d4_a4_c3, Cfg { kind: 3, h: 1, d: 4, cur: 3, area: 4, npts: 0, dom: Dom::I8, depth: [0, 0, 0, 2, 1, 0], ..CFG0 });
+// @h prop=C02 unwind=10 rec=3 cutfmt=1 uw=same_output.0:25;exit_model.0:25;exit.0:25;push.0:17;write.0:17 timeout=1800 mem=12 tier=thorough kind=stretch what=pairwise_grid_g_k5_h1_d0_a3_c4
+ostep!(og_k5_h1_d0_a3_c4, Cfg { kind: 5, h: 1, d: 0, cur: 4, area: 3, npts: 0, dom: Dom::I8, depth: [0, 0, 0, 0, 2, 0], ..CFG0 });
+// @h prop=C02 unwind=10 rec=3 cutfmt=1 uw=same_output.0:25;exit_model.0:25;exit.0:25;push.0:17;write.0:17 timeout=1800 mem=12 tier=thorough kind=stretch what=pairwise_grid_g_k2_h3_d0_a3_c4
+ostep!(og_k2_h3_d0_a3_c4, Cfg { kind: 2, h: 3, d: 0, cur: 4, area: 3, npts: 0, dom: Dom::Frac, depth: [0, 0, 0, 0, 3, 0], ..CFG0 });
+// @h prop=C02 unwind=10 rec=2 cutfmt=1 uw=same_output.0:25;exit_model.0:25;exit.0:25;push.0:17;write.0:17 timeout=1800 mem=12 tier=thorough kind=stretch what=pairwise_grid_g_k4_h1_d3_a0_c4
+ostep!(og_k4_h1_d3_a0_c4, Cfg { kind: 4, h: 1, d: 3, cur: 4, area: 0, npts: 0, dom: Dom::Frac, depth: [0, 0, 0, 1, 1, 0], ..CFG0 });
+// @h prop=C02 unwind=10 rec=3 cutfmt=1 uw=same_output.0:25;exit_model.0:25;exit.0:25;push.0:17;write.0:17 timeout=1800 mem=12 tier=thorough kind=stretch what=pairwise_grid_g_k5_h1_d3_a4_c3
+ostep!(og_k5_h1_d3_a4_c3, Cfg { kind: 5, h: 1, d: 3, cur: 3, area: 4, npts: 0, dom: Dom::I8, depth: [0, 0, 0, 2, 0, 0], ..CFG0 });
+// @h prop=C02 unwind=10 rec=2 cutfmt=1 uw=same_output.0:25;exit_model.0:25;exit.0:25;push.0:17;write.0:17 timeout=1800 mem=12 tier=thorough kind=stretch what=pairwise_grid_g_k1_h2_d3_a1_c3
+ostep!(og_k1_h2_d3_a1_c3, Cfg { kind: 1, h: 2, d: 3, cur: 3, area: 1, npts: 1, dom: Dom::I8, depth: [0, 0, 0, 2, 0, 0], ..CFG0 });
+// @h prop=C02 unwind=10 rec=2 cutfmt=1 uw=same_output.0:25;exit_model.0:25;exit.0:25;push.0:17;write.0:17 timeout=1800 mem=12 tier=thorough kind=stretch what=pairwise_grid_g_k3_h3_d0_a1_c4
+ostep!(og_k3_h3_d0_a1_c4, Cfg { kind: 3, h: 3, d: 0, cur: 4, area: 1, npts: 1, dom: Dom::I8, depth: [0, 0, 0, 0, 3, 0], ..CFG0 });
